@@ -2,6 +2,7 @@ package main
 
 import (
 	"fmt"
+	"go/token"
 	"strings"
 
 	"golang.org/x/tools/go/ssa"
@@ -125,9 +126,45 @@ func runC16(c *Ctx) {
 			if in, ok := o.v.(ssa.Instruction); ok {
 				pos = p.InstrPos(in)
 			}
-			c.ob("R16.1", short(f.String()), "options-applied-to-"+o.kind, pos, okAll && nUse > 0,
+			c.ob("R16.1", obFnName(f), "options-applied-to-"+o.kind, pos, okAll && nUse > 0,
 				"every csv."+strings.Title(o.kind)+" the codec creates or is handed passes through "+strings.TrimPrefix(o.apply, "(rt.csvOpts).")+" before its first use, so every source/destination kind honours the same options",
 				"this "+o.kind+" is used without the options having been applied (separator, comment, quoting … would silently differ from the other kinds)")
+		}
+	}
+	// … and nothing but applyToReader / applyToWriter configures them: no other function of the package writes a field
+	// of a csv.Reader or csv.Writer (a setting forced for one destination kind — ReuseRecord, say — makes the kinds
+	// disagree and overrides the caller's option)
+	for _, fn := range p.LibFuncs("rt") {
+		name := fnName(fn)
+		if name == "(rt.csvOpts).applyToReader" || name == "(rt.csvOpts).applyToWriter" {
+			continue
+		}
+		for _, in := range ownInstrs(fn) {
+			st, ok := in.(*ssa.Store)
+			if !ok {
+				continue
+			}
+			fa, ok := st.Addr.(*ssa.FieldAddr)
+			if !ok {
+				continue
+			}
+			n, stt := structOf(fa.X.Type())
+			if n == nil || (typeFullName(n) != "encoding/csv.Reader" && typeFullName(n) != "encoding/csv.Writer") {
+				continue
+			}
+			if isTransparent(fn) {
+				// a helper the two appliers delegate to
+				onlyFromAppliers := true
+				for _, rt := range rootsOf(fn) {
+					if rn := fnName(rt); rn != "(rt.csvOpts).applyToReader" && rn != "(rt.csvOpts).applyToWriter" {
+						onlyFromAppliers = false
+					}
+				}
+				if onlyFromAppliers {
+					continue
+				}
+			}
+			c.obD("R16.1", st, "csv-settings-only-through-the-options", false, "the fields of a csv.Reader / csv.Writer are written only by applyToReader / applyToWriter", typeFullName(n)+"."+stt.Field(fa.Field).Name()+" is set by "+name)
 		}
 	}
 	c.min("R16.1", 14)
@@ -250,7 +287,24 @@ func runC16(c *Ctx) {
 		}
 		c.obI("R16.2", st, "destination-container-starts-empty", okE, "the in-memory container a consumer pipes the parsed records into starts with length 0 (records delivered = records parsed)", why)
 	}
-	c.min("R16.2", 3)
+	// bytes delivered into a []byte destination are this call's own storage: SetBytes is given the contents of a
+	// buffer declared by this very call (a pooled or shared buffer is rewritten by the next call while the caller still
+	// holds the earlier result)
+	nSB := 0
+	for _, sb := range callsIn(fc, "(reflect.Value).SetBytes") {
+		_, a := callArgs(sb.Common())
+		nSB++
+		ok, bad := allOrigins(a[0], oCallWhere(-1, "(*bytes.Buffer).Bytes", func(b *ssa.Call) bool {
+			okB, _ := allOrigins(b.Call.Args[0], func(o Origin) bool {
+				al, isAl := o.V.(*ssa.Alloc)
+				return isAl && al.Parent() == b.Parent() && typeStr(al.Type()) == "*bytes.Buffer"
+			})
+			return okB
+		}))
+		c.obI("R16.2", sb, "delivered-bytes-are-this-calls-own", ok, "the bytes stored into a []byte destination come from a buffer declared by this call", "the delivered bytes are the storage of "+describeOrigin(bad))
+	}
+	c.obRF("R16.2", fc, "delivers-bytes", nSB >= 1, "the consumer can deliver into a []byte destination", "")
+	c.min("R16.2", 4)
 
 	// R16.3 retention
 	wr := p.Fn("(*rt.csvRecordsWriter).Write")
@@ -377,6 +431,49 @@ func runC16(c *Ctx) {
 		}
 	}
 	c.obF("R16.4", pc, "flush-then-error", okFE, "at the end of input the writer is flushed and its Error() is the result (a write error is not lost); a bare nil is returned only when the input ends within the skipped lines", "")
+	// the copy ends only at the end of the input: after a Read, the final Flush is reached either through the Write of
+	// that record (next round) or through "the error is io.EOF" — a nil record, an empty record or any other value of
+	// the record never ends the copy (a nil record inside a table source does not cut the rest off)
+	{
+		isEOFGlobal := func(v ssa.Value) bool {
+			ad, ok := derefLoad(v)
+			if !ok {
+				return false
+			}
+			gl, ok := ad.(*ssa.Global)
+			return ok && short(gl.String()) == "io.EOF"
+		}
+		for _, rdi := range callsIn(pc, "(rt.CSVReader).Read") {
+			rd, ok := rdi.(*ssa.Call)
+			if !ok {
+				continue
+			}
+			ev := resultOf(rd, 1)
+			if ev == nil {
+				continue
+			}
+			isEv := func(v ssa.Value) bool { okV, _ := allOrigins(v, oIsValue(ev)); return okV }
+			atEOF := func(cond ssa.Value, branch bool) bool {
+				cnd, b := stripNot(cond, branch)
+				if call := asCall(cnd); call != nil && calleeName(&call.Call) == "errors.Is" && len(call.Call.Args) == 2 {
+					return b && isEv(call.Call.Args[0]) && isEOFGlobal(call.Call.Args[1])
+				}
+				if bo, isBo := cnd.(*ssa.BinOp); isBo && (bo.Op == token.EQL || bo.Op == token.NEQ) {
+					if (isEv(bo.X) && isEOFGlobal(bo.Y)) || (isEv(bo.Y) && isEOFGlobal(bo.X)) {
+						return b == (bo.Op == token.EQL)
+					}
+				}
+				return false
+			}
+			isWrite := isCallInstrTo("(rt.CSVWriter).Write")
+			for _, fl := range callsIn(pc, "(rt.CSVWriter).Flush") {
+				early := pathExists(pc, rd, fl, atEOF, func(in ssa.Instruction) bool {
+					return isWrite(in) || (in != ssa.Instruction(rd) && isCallInstrTo("(rt.CSVReader).Read")(in))
+				})
+				c.obI("R16.4", rd, "copy-ends-only-at-EOF", !early, "after a record was read, the end of the copy (Flush) is reached only through writing it and reading on, or through the reader's io.EOF", "the copy can end after a Read that did not report io.EOF (the remaining records are silently dropped)")
+			}
+		}
+	}
 	// records are written in order: every record read in the main loop is written
 	for _, w := range callsIn(pc, "(rt.CSVWriter).Write") {
 		_, a := callArgs(w.Common())
@@ -445,6 +542,20 @@ func runC16(c *Ctx) {
 				c.obI("R16.4", r, "wait-error-returned", okW, "the pipeline's error is what Produce returns", "")
 			}
 		}
+	}
+	// an in-memory source ([]byte, string, marshaler output) is parsed from its full content, by the same CSV parser as
+	// every other source: the reader is built over exactly the bytes the source holds (lines skipped by raw text
+	// surgery are counted in physical lines, not in records: quoted newlines, comments and blank lines differ)
+	for _, ci := range callsIn(fp, "bytes.NewBuffer", "bytes.NewBufferString", "bytes.NewReader", "strings.NewReader") {
+		a := ci.Common().Args
+		if len(a) != 1 {
+			continue
+		}
+		ok, bad := allOrigins(a[0], oCall(-1, "(reflect.Value).Bytes", "(reflect.Value).String"), func(o Origin) bool {
+			call := asCall(o.V)
+			return call != nil && call.Call.IsInvoke() && (call.Call.Method.Name() == "MarshalBinary" || call.Call.Method.Name() == "MarshalText")
+		})
+		c.obI("R16.4", ci, "in-memory-source-parsed-whole", ok, "the CSV reader over an in-memory source reads exactly the source's bytes (v.Bytes(), v.String(), the marshaler's output)", "the reader is built over "+describeOrigin(bad))
 	}
 	c.min("R16.4", 20)
 
